@@ -289,11 +289,11 @@ pub fn run(cx: &mut Ctx) {
             cx.replay_outcome(&name, r);
         }
     }
-    let (deep_max, tile_max) = if cx.tier == Tier::Quick { (2000, 3000) } else { (6000, 20000) };
+    let (deep_max, tile_max) = if cx.tier == Tier::Quick { (2000, 3000) } else { (6000, 12000) };
     cx.check(
         "navigate-vs-span-table",
         RULE,
-        Budget { quick: 20_000, thorough: 1_000_000, max_len: 5000 },
+        Budget { quick: 20_000, thorough: 600_000, max_len: 5000 },
         |u, st| {
             let c = gen_case(u, deep_max, tile_max);
             classify(&c, st);
